@@ -28,7 +28,7 @@ from sim.core import sub_rng
 
 PROP = "C20"
 LEVEL = "fault_enumeration"
-TIERS = {"quick": dict(runs=2400, chunk=20), "thorough": dict(budget_s=480, max_runs=400_000, chunk=100)}
+TIERS = {"quick": dict(runs=2000, chunk=20), "thorough": dict(budget_s=480, max_runs=400_000, chunk=40)}
 RUN_WALL_CAP = 120
 RULE = ("one case = one admissible 2-D/3-D domain (nel, nnodes not multiples of each other), 1-3 writers in one or two "
         "directories (WriteToVTI with overwrite flag, scale factor and 1-4 cell/point inputs: 1-3 components, 1-D vectors or "
@@ -222,8 +222,11 @@ def simplify(case):
         c = copy.deepcopy(case)
         c["dom"]["unit"] = [1.0, 1.0, 1.0]
         yield c
-    for d in ((2, 2, 0), (1, 3, 0), (2, 2, 1)):
-        if tuple(case["dom"]["nel"]) != d and (d[2] > 0) == (case["dom"]["nel"][2] > 0):
+    def size(dd):
+        return (dd[2] > 0, dd[0] * dd[1] * max(dd[2], 1), dd[0])
+
+    for d in ((1, 3, 0), (2, 2, 0), (2, 2, 1)):
+        if size(d) < size(case["dom"]["nel"]) and (d[2] > 0) == (case["dom"]["nel"][2] > 0):
             c = copy.deepcopy(case)
             c["dom"]["nel"] = list(d)
             yield c
